@@ -198,6 +198,22 @@ def gen_cases(seed, tier):
             forced.pop(0)
         cases.append({"spec": spec, "rows": rows, "info": info, "k": len(rows[free[0]]), "free": free, "optional": optional,
                       "seed": int(rng.integers(0, 2 ** 31)), "uservol": bool(rng.random() < 0.2)})
+    # parameter variables with names of several characters (tau, shift): the declared sets hold names, not characters
+    ren = {"t": "tau", "u": "shift"}
+
+    def rename(o):
+        if isinstance(o, dict):
+            return {k: (ren.get(v, v) if k == "var" and isinstance(v, str) else rename(v)) for k, v in o.items()}
+        if isinstance(o, list):
+            return [rename(v) for v in o]
+        return o
+    for j, c_ in enumerate(cases):
+        if j % 3 == 1:
+            c_["spec"] = rename(c_["spec"])
+            c_["rows"] = {ren.get(k, k): v for k, v in c_["rows"].items()}
+            c_["free"] = sorted(ren.get(k, k) for k in c_["free"])
+            c_["optional"] = {ren.get(k, k): v for k, v in c_["optional"].items()}
+            c_["info"] = dict(c_["info"], long_names=True)
     # points (0-dimensional domains) in 2-D / 3-D: moving with one or two variables, constant ones given as a tensor, and a
     # moving point as factor of a product (the product hands the values to both factors: the point is evaluated twice)
     rng6 = np.random.default_rng([seed, 17, 6])
